@@ -176,6 +176,88 @@ theorem all_block_modes_many_blocks (C : Cipher) (blocks garbage : List Bytes) (
   exact ⟨key (cbc_enc C), key (cbc_dec C), key (pcbc_enc C), key (pcbc_dec C), key (ige_enc C), key (ige_dec C),
     key (cfb_enc C), key (cfb_dec C), key (cfb8_enc C), key (cfb8_dec C), key (ofb C)⟩
 
+/-! ### one session mixing the two forms (a caller-written `*_with_backend` closure may handle one block buffer-to-buffer
+   and the next one in place: harness op `backend 6`) -/
+
+/-- one in/out block of a session: used in place (`none`), or buffer-to-buffer into a block holding arbitrary bytes `g`. -/
+def mkIO (b : Bytes) : Option Bytes → IOB
+  | none => IOB.inplace b
+  | some g => IOB.b2b b g
+
+/-- **any interleaving** of in-place and buffer-to-buffer blocks within one backend session gives the outputs and the final
+    state of the value-level fold: the form of one block has no influence on the next.  (A body that decides once per
+    session which form it is dealing with — seeded change S-C07-m — cannot satisfy `AliasIndep`, see `sticky_form_refuted`.) -/
+theorem mixed_session_alias_indep {σ : Type} {mem : σ → IOB → IOB × σ} {pure : σ → Bytes → Bytes × σ}
+    (h : AliasIndep mem pure) : ∀ (blocks : List (Bytes × Option Bytes)) (s : σ),
+      ((Mem.foldIO mem s (blocks.map fun p => mkIO p.1 p.2)).1.map (·.out),
+        (Mem.foldIO mem s (blocks.map fun p => mkIO p.1 p.2)).2) = Glue.foldBlocks pure s (blocks.map (·.1)) := by
+  intro blocks
+  induction blocks with
+  | nil => intro s; simp [Mem.foldIO, Glue.foldBlocks]
+  | cons p ps ih =>
+    intro s
+    obtain ⟨b, og⟩ := p
+    have e : (mem s (mkIO b og)).1.out = (pure s b).1 ∧ (mem s (mkIO b og)).2 = (pure s b).2 := by
+      cases og with
+      | none => exact ⟨congrArg Prod.fst (h s b []).1, congrArg Prod.snd (h s b []).1⟩
+      | some g => exact ⟨congrArg Prod.fst (h s b g).2, congrArg Prod.snd (h s b g).2⟩
+    have i := ih (pure s b).2
+    simp only [List.map_cons, Mem.foldIO, Glue.foldBlocks, e.1, e.2]
+    rw [← i]
+
+/-- instances: every block-mode direction. -/
+theorem all_block_modes_mixed_session (C : Cipher) (blocks : List (Bytes × Option Bytes)) :
+    (∀ iv, (Mem.foldIO (Mem.Cbc.encBlock C) iv (blocks.map fun p => mkIO p.1 p.2)).1.map (·.out)
+        = (Glue.foldBlocks (Cbc.encBlock C) iv (blocks.map (·.1))).1) ∧
+    (∀ iv, (Mem.foldIO (Mem.Cbc.decBlock C) iv (blocks.map fun p => mkIO p.1 p.2)).1.map (·.out)
+        = (Glue.foldBlocks (Cbc.decBlock C) iv (blocks.map (·.1))).1) ∧
+    (∀ iv, (Mem.foldIO (Mem.Pcbc.encBlock C) iv (blocks.map fun p => mkIO p.1 p.2)).1.map (·.out)
+        = (Glue.foldBlocks (Pcbc.encBlock C) iv (blocks.map (·.1))).1) ∧
+    (∀ iv, (Mem.foldIO (Mem.Pcbc.decBlock C) iv (blocks.map fun p => mkIO p.1 p.2)).1.map (·.out)
+        = (Glue.foldBlocks (Pcbc.decBlock C) iv (blocks.map (·.1))).1) ∧
+    (∀ s, (Mem.foldIO (Mem.Ige.encBlock C) s (blocks.map fun p => mkIO p.1 p.2)).1.map (·.out)
+        = (Glue.foldBlocks (Ige.encBlock C) s (blocks.map (·.1))).1) ∧
+    (∀ s, (Mem.foldIO (Mem.Ige.decBlock C) s (blocks.map fun p => mkIO p.1 p.2)).1.map (·.out)
+        = (Glue.foldBlocks (Ige.decBlock C) s (blocks.map (·.1))).1) ∧
+    (∀ iv, (Mem.foldIO (Mem.Cfb.encBlock C) iv (blocks.map fun p => mkIO p.1 p.2)).1.map (·.out)
+        = (Glue.foldBlocks (Cfb.encBlock C) iv (blocks.map (·.1))).1) ∧
+    (∀ iv, (Mem.foldIO (Mem.Cfb.decBlock C) iv (blocks.map fun p => mkIO p.1 p.2)).1.map (·.out)
+        = (Glue.foldBlocks (Cfb.decBlock C) iv (blocks.map (·.1))).1) ∧
+    (∀ iv, (Mem.foldIO (Mem.Cfb8.encBlock C) iv (blocks.map fun p => mkIO p.1 p.2)).1.map (·.out)
+        = (Glue.foldBlocks (Cfb8.encBlock C) iv (blocks.map (·.1))).1) ∧
+    (∀ iv, (Mem.foldIO (Mem.Cfb8.decBlock C) iv (blocks.map fun p => mkIO p.1 p.2)).1.map (·.out)
+        = (Glue.foldBlocks (Cfb8.decBlock C) iv (blocks.map (·.1))).1) ∧
+    (∀ iv, (Mem.foldIO (Mem.Ofb.encBlock C) iv (blocks.map fun p => mkIO p.1 p.2)).1.map (·.out)
+        = (Glue.foldBlocks (Ofb.encBlock C) iv (blocks.map (·.1))).1) := by
+  have key : ∀ {σ : Type} {mem : σ → IOB → IOB × σ} {pure : σ → Bytes → Bytes × σ} (_ : AliasIndep mem pure) (s : σ),
+      (Mem.foldIO mem s (blocks.map fun p => mkIO p.1 p.2)).1.map (·.out) = (Glue.foldBlocks pure s (blocks.map (·.1))).1 :=
+    fun h s => congrArg Prod.fst (mixed_session_alias_indep h blocks s)
+  exact ⟨key (cbc_enc C), key (cbc_dec C), key (pcbc_enc C), key (pcbc_dec C), key (ige_enc C), key (ige_dec C),
+    key (cfb_enc C), key (cfb_dec C), key (cfb8_enc C), key (cfb8_dec C), key (ofb C)⟩
+
+/-- the body of seeded change S-C07-m — CFB decryption that remembers, from the first block of a session, whether the caller
+    works in place, and on the buffer-to-buffer path encrypts the *input side* straight into the feedback register after the
+    output was written (fine when the sides are distinct, wrong when a later block is in place) — written on the same memory
+    model (`E = id`, one byte): its result on a mixed session differs from the definition.  So `mixed_session_alias_indep` is a
+    statement such a body fails, and the model can express the difference. -/
+def stickyCfbDec (C : Cipher) (st : Bytes × Option Bool) (io : IOB) : IOB × (Bytes × Option Bool) :=
+  let inPlace := match st.2 with
+    | some f => f
+    | none => io.alias
+  if inPlace then
+    let t := io.getIn                              -- copy of the ciphertext block taken first
+    let io' := io.xorIn2Out st.1
+    (io', (C.enc t, some inPlace))
+  else
+    let io' := io.xorIn2Out st.1
+    (io', (C.enc io'.getIn, some inPlace))         -- "copy-free": reads the input side after the output was written
+
+theorem sticky_form_refuted :
+    let C : Cipher := { bs := 1, enc := id, dec := id }
+    (Mem.foldIO (stickyCfbDec C) ([7], none) [mkIO [1] (some [9]), mkIO [2] none]).2.1
+      ≠ (Glue.foldBlocks (Cfb.decBlock C) [7] [[1], [2]]).2 := by
+  decide
+
 /-! ### ciphertext stealing: the twelve closures of cts/src/{cbc,ecb}_cs{1,2,3}.rs on the flat in/out buffer
 
   `Impl/MemCts.lean` mirrors the closures and cts/src/lib.rs statement by statement on `IOBuf` (block loops with
